@@ -114,6 +114,13 @@ def filterProps (t : Bytes) : FilterProps :=
       { st.props with isValid := false }
     else st.props
 
+/-- `is_valid_topic_filter`: the static part of the filter rules - grammar, length, no-local on a shared subscription -/
+def isValidFilter (f : Bytes) (noLocal : Option Bool) : Bool :=
+  let p := filterProps f
+  if !p.isValid then false
+  else if p.isShared && noLocal == some true then false
+  else true
+
 /-- `is_valid_topic_filter_internal`; `none` settings = `unwrap()` panic -/
 def isValidFilterInternal (f : Bytes) (s : Settings) (noLocal : Option Bool) : Bool :=
   let p := filterProps f
@@ -146,11 +153,13 @@ def vSubscribeOutbound (p : Subscribe) : VRes := do
   okIf (p.packetId = 0)
   okIf (!p.subscriptions.isEmpty)
   okIf (match p.subscriptionId with | none => true | some i => decide (1 ≤ i ∧ i ≤ 268435455))
+  okIf (p.subscriptions.all (fun x => isValidFilter x.topicFilter (some x.noLocal)))
   vUserProps p.userProps
 
 def vUnsubscribeOutbound (p : Unsubscribe) : VRes := do
   okIf (p.packetId = 0)
   okIf (!p.topicFilters.isEmpty)
+  okIf (p.topicFilters.all (fun f => isValidFilter f none))
   vUserProps p.userProps
 
 def vDisconnectOutbound (p : Disconnect) : VRes := do
